@@ -247,10 +247,41 @@ def schedule_from_model(model, prefix):
     return out
 
 
+def check_wide():
+    """send_bytes of bytes-like objects with items wider than a byte: offset and size count bytes of the content"""
+    import array
+    for code in ('i', 'd', 'H'):
+        a = array.array(code, range(1, 8))
+        raw = a.tobytes()
+        for offset, size in ((0, None), (len(a) + 1, None), (len(raw) - 3, 3), (len(raw), None), (2, len(a) + 5)):
+            r, wr = connection.Pipe(duplex=False)
+            try:
+                want = raw[offset:] if size is None else raw[offset:offset + size]
+                try:
+                    wr.send_bytes(a, offset) if size is None else wr.send_bytes(a, offset, size)
+                except ValueError as e:
+                    return "send_bytes(array(%r) of %d items = %d bytes, offset %d, size %r) refused: %s" % (
+                        code, len(a), len(raw), offset, size, e)
+                got = r.recv_bytes()
+                if got != want:
+                    return "send_bytes(array(%r) of %d items = %d bytes, offset %d, size %r) delivered %d bytes, expected %d" % (
+                        code, len(a), len(raw), offset, size, len(got), len(want))
+            finally:
+                r.close()
+                wr.close()
+    return None
+
+
 def main():
     data = json.load(open(sys.argv[1]))
-    fn = data['function'].rsplit('.', 1)[1]
+    fn = data['function'].rsplit('.', 1)[1].split('@')[0]
     print('replay of %s / %s' % (data['function'], data['obligation']))
+    if fn == 'send_bytes':
+        bad = check_wide()
+        if bad:
+            print('  violation on real code: %s' % bad)
+        print('REPRODUCED on real code' if bad else 'not reproduced')
+        sys.exit(1 if bad else 0)
     if fn == 'recv_bytes_into':
         bad = check_into()
         if bad:
